@@ -32,8 +32,9 @@ ASSUMPTIONS = [
     "the caches' clock is non-decreasing along a history in the correspondence run (the theorems hold for any clock values)",
     "host names, tokens and attribute strings are printable ASCII in the correspondence run (strings.ToLower / json.Marshal "
     "are modelled on ASCII); audiences are not used",
-    "moving an alias from one cluster to another while its per-host cache is alive is outside the property's quantifier "
-    "(cluster_of is static in the model); noted, not checked",
+    "server names move between running clusters and clusters are deleted / re-created only through the controller's "
+    "AddOrUpdateForServerNames / DeleteForServerNames (driven directly, without informer and queue); a cluster's own name "
+    "is registered to it exactly while it exists; a ClusterInfo is stopped before the next one of the same name is created",
     "the TLS server name (SNI) of a connection is not an input of the model: a chain request is dispatched to, and "
     "reviewed by, cluster_of(Host); chain requests use lower-case, non-IP Host values (the factory lower-cases and strips the port)",
     "a server (endpoint URL, with its upstream identity) is in the server list of at most one cluster at a time; "
@@ -135,6 +136,28 @@ def addep(c, s):
 
 def removeep(c, s):
     return {"op": "removeep", "c": c, "srv": s}
+
+
+def name(c, h):
+    """cluster c's object gains server name h (controller: AddOrUpdateForServerNames -> AddWithKey)"""
+    return {"op": "name", "c": c, "host": h}
+
+
+def unname(c, h):
+    """cluster c's object loses server name h (controller: AddOrUpdateForServerNames -> Delete, c keeps running)"""
+    return {"op": "unname", "c": c, "host": h}
+
+
+def move(h, x, y):
+    return [unname(x, h), name(y, h)]
+
+
+def delete(c):
+    return {"op": "delete", "c": c}
+
+
+def recreate(c):
+    return {"op": "recreate", "c": c}
 
 
 def corpus():
@@ -286,6 +309,33 @@ def corpus():
                                 chain("nowhere", "t", 11, sni="c1"), chain("nowhere", "t", 12, "admin", sni="c2"),
                                 disabled("c2", 0), chain("c2", "t2", 13, sni="c1"), chain("c1", "t2", 14, "admin", sni="c2"),
                                 authn("c1", "t", 15), authz("c2", IMP("root@c2"), 15)]})
+    # 12. SERVER NAMES MOVE between running clusters; clusters are deleted and created again (the controller's
+    #     AddOrUpdateForServerNames / DeleteForServerNames).  An answer may be applied to a request for h only if it
+    #     was given by the cluster that owns h NOW (this incarnation).
+    #     H1: c1 {alias h, allows}, c2 {denies}; request via h -> c1 asked; h moves c1 -> c2; same request -> c2 must be asked
+    #     H2: move, advance past the TTL, request (c2 asked, cached), delete c2, re-create c2, request via h -> the new c2 asked
+    regh = [("c1", "c1"), ("c2", "c2"), ("h", "c1")]
+    for via in ("token", "request"):
+        cs.append({"cfg": base_cfg(regh, neps, sttl=100, fttl=100, attl=100, dttl=100), "via": via,
+                   "tscript": {"c1": [tauth("c1")] * 4, "c2": [{"k": "unauth"}, tauth("c2", "root"), {"k": "unauth"}, tauth("c2", "third")]},
+                   "sscript": {"c1": [sstatus("c1", True)] * 6, "c2": [sstatus("c2", False, True), sstatus("c2", False), sstatus("c2", False, True),
+                                                                      sstatus("c2", False), sstatus("c2", False, True), sstatus("c2", False)]},
+                   "ops": up + [authn("h", "t", 0), authz("h", ATTRS[0], 0), authz("h", IMP(), 0, avia="impersonate"),          # c1 asked
+                                authn("h", "t", 1), authz("h", ATTRS[0], 1), authz("h", IMP(), 1, avia="impersonate")]          # c1's cache
+                          + move("h", "c1", "c2") +
+                               [authn("h", "t", 2), authz("h", ATTRS[0], 2), authz("h", IMP(), 2, avia="impersonate"),          # H1: c2 asked
+                                authn("h", "t", 3), authz("h", ATTRS[0], 3),                                                    # c2's cache
+                                authn("c1", "t", 3), authz("c1", ATTRS[0], 3)]                                                  # c1's own name: own cache
+                          + move("h", "c2", "c1") + [authn("h", "t", 4), authz("h", ATTRS[0], 4)]                               # back: c1's entries, same incarnation
+                          + move("h", "c1", "c2") +
+                               [authn("h", "t", 200), authz("h", ATTRS[0], 200), authz("h", IMP(), 200, avia="impersonate"),    # H2: past TTL: c2 asked, cached
+                                authn("h", "t", 201), delete("c2"), authn("h", "t", 202), authz("c2", ATTRS[0], 202),           # nobody serves h / c2
+                                recreate("c2"), name("c2", "h"), authn("h", "t", 203), healthy("c2", 0),
+                                authn("h", "t", 204), authz("h", ATTRS[0], 204), authz("h", IMP(), 204, avia="impersonate"),    # the new c2 asked
+                                chain("h", "t", 205, "admin", sni="c1"), chain("c2", "t", 206, sni="h"),
+                                name("c1", "h"), unname("c1", "h"), unname("c2", "c2"), recreate("c1"), name("c9", "x"),        # no-ops
+                                delete("c1"), name("c2", "c1"), recreate("c1"), authn("c1", "t", 207), authz("c1", ATTRS[0], 207),   # c1's name taken over by c2
+                                unname("c2", "c1"), recreate("c1"), healthy("c1", 0), authn("c1", "t", 208), authz("C1", ATTRS[0], 208)]})
     return cs
 
 
@@ -297,7 +347,7 @@ def gen_case(rng, tier):
     for k in range(rng.below(3)):
         reg.append(("alias%d" % k, rng.choice(cls)))
     if rng.chance(1, 8):
-        reg.append(("orphan", "c9"))           # registered name whose ClusterInfo has no endpoints
+        reg += [("c9", "c9"), ("orphan", "c9")]    # a cluster (and a server name of it) without any endpoint
     neps = {c: rng.choice([1, 1, 2, 2, 3]) for c in cls}
     if rng.chance(1, 10):
         neps[rng.choice(cls)] = 0
@@ -345,6 +395,12 @@ def gen_case(rng, tier):
         for i in range(neps[c]):
             if rng.chance(9, 10):
                 ops.append(healthy(c, i))
+    with_moves = rng.chance(1, 4)
+    if with_moves:
+        hosts = hosts + ["vanity"]
+    names_now = {k: v for k, v in reg}          # the generator's own view of the registry (the model decides)
+    names_now.setdefault("vanity", None)
+    dead = set()
     with_overlap = rng.chance(1, 8)
     with_chain = rng.chance(1, 5)
     with_lists = rng.chance(1, 4)
@@ -411,6 +467,43 @@ def gen_case(rng, tier):
             ops.append({"op": "restart", "c": c})
             if rng.chance(3, 4) and lists[c]:
                 ops.append(healthy_srv(rng.choice(lists[c])))
+        elif with_moves and k < 96 and (not with_lists or rng.chance(1, 2)):
+            # server names move between running clusters; clusters are deleted and created again
+            r = rng.below(10)
+            alive = [c for c in cls if c not in dead]
+            movable = [h for h in names_now if h not in cls]
+            if r < 4 and movable and len(alive) >= 1:
+                h = rng.choice(movable)
+                x, y = names_now[h], rng.choice(alive)
+                ops.extend(move(h, x, y) if x else [name(y, h)])
+                names_now[h] = y
+            elif r < 5 and movable:
+                h = rng.choice(movable)
+                ops.append(unname(names_now[h] or rng.choice(cls), h))
+                names_now[h] = None
+            elif r < 6:
+                ops.append(name(rng.choice(cls), rng.choice(list(names_now))))      # mostly rejected: the name is taken
+            elif r < 8 and alive:
+                c = rng.choice(alive)
+                ops.append(delete(c))
+                dead.add(c)
+                for h in names_now:
+                    if names_now[h] == c:
+                        names_now[h] = None
+            elif dead:
+                c = rng.choice(sorted(dead))
+                ops.append(recreate(c))
+                dead.discard(c)
+                names_now[c] = c
+                if lists[c]:
+                    ops.append(healthy_srv(rng.choice(lists[c])))
+                if movable and rng.chance(1, 2):
+                    h = rng.choice(movable)
+                    if names_now[h] is None:
+                        ops.append(name(c, h))
+                        names_now[h] = c
+            else:
+                ops.append(recreate(rng.choice(cls)))                               # no-op: it is alive
         elif with_lists and k < 96:
             # the clusters' server lists change: remove / add / re-home (remove from one cluster, add to another)
             owned = [(c, s) for c in cls for s in lists[c]]
@@ -509,6 +602,14 @@ def coq_op(o, names=None):
         return "(ORemoveEp %s %s)" % (cstr(o["c"]), cstr(o["srv"]))
     if k == "restart":
         return "(ORestart %s)" % cstr(o["c"])
+    if k == "delete":
+        return "(ODelete %s)" % cstr(o["c"])
+    if k == "recreate":
+        return "(ORecreate %s)" % cstr(o["c"])
+    if k == "name":
+        return "(OName %s %s)" % (cstr(o["c"]), cstr(o["host"]))
+    if k == "unname":
+        return "(OUnname %s %s)" % (cstr(o["c"]), cstr(o["host"]))
     if k == "evictt":
         return "(OEvictT %s %s)" % (cstr(o["host"]), cstr(o["tok"]))
     if k == "evicts":
@@ -633,6 +734,10 @@ def coq_case(case, obs):
             items.append("(%s, RC %s %s %s)" % (coq_op(o), t, z, copt(s.get("dispatch"), cstr)))
         else:
             items.append("(One %s, R1 %s)" % (coq_op(o, names), coq_out(s)))
+            if s.get("kind") == "N" and s.get("note"):
+                # a deleted / restarted cluster was not stopped, or the caches created under it were not dropped:
+                # never so in the model -> visible disagreement
+                items.append(BAD_STEP)
     return "(%sCase %s %s %s %s)" % (lets, cfg, ts, ss, clist(items))
 
 
